@@ -13,11 +13,12 @@ every block shape, cell content, packet and entry classification that satisfies 
   code uses for axes with direction component 0 really is larger than every wall distance
   (`cell_size < DBL_MAX·|d_a|` on the moving axes);
 * `Start`: a classification `0..26`, `inv_cell_size · cell_size = 1`, and on every axis whose
-  index is *computed from the position* the position is owned by a cell of the block
-  (`0 ≤ x < n·cell_size`, the cells' own half-open convention).  Nothing is assumed about the
-  compatibility of the entry classification with the direction: an incompatible entry simply
-  leaves at once with zero path.  A start exactly on the UPPER block boundary with a computed
-  index is outside `Start`; what the code does then is `upper_boundary_start_exits_at_once`.
+  index is *computed from the position* the position lies in the closed block
+  (`0 ≤ x ≤ n·cell_size`; a position on the upper boundary belongs to the last cell since the
+  index is clamped, `std::min(index, n - 1)`).  Nothing is assumed about the compatibility of the
+  entry classification with the direction: an incompatible entry simply leaves at once with
+  zero path.  What the code did with a start on the upper boundary before the clamp existed is
+  kept as `old_code_upper_boundary_index_outside`.
 -/
 set_option linter.unusedSectionVars false
 set_option linter.unusedVariables false
@@ -367,73 +368,27 @@ theorem one_pass_stop (hv : Valid b cells ph) (s : St K) (hr : InRange b.n s.idx
   have := stop_axis b cells ph s hv hr hc hrun hreach a
   exact ⟨this.1, this.2.1, this.2.2⟩
 
-/-! #### outside the domain: start on the upper block boundary -/
+/-! #### the code before the clamp in `get_{x,y,z}_index` (frozen negative example) -/
 
-/-- What the code does when a coordinate whose index is *computed from the position* lies on
-(or beyond) the upper block boundary (`position·inv_cell_size ≥ n`): the start index is `n`, the
-loop body never runs, nothing is deposited, and the packet is returned at once through the
-upper face of that axis — **whatever its direction**, also when it travels into the block.
-(Recorded finding; outside `Start`.) -/
-theorem upper_boundary_start_exits_at_once (hv : Valid b cells ph) (hd : inDir < 27) (a : Ax)
+/-- A coordinate whose index is *computed from the position* and that lies on the upper block
+boundary (`position·inv_cell_size ≥ n`): the OLD index rule (`return x * _inv_cell_size`) gave
+the index `n`, outside the range, so the loop body never ran and the packet was returned at
+once through the upper face whatever its direction (former finding
+`march:start-on-upper-block-boundary`); the current rule (`std::min(…, n - 1)`) gives the last
+cell, and all theorems above hold for such a start (`Start.owned` is `0 ≤ x ≤ extent`). -/
+theorem old_code_upper_boundary_index_outside (hd : inDir < 27) (a : Ax)
     (hk : idxKind inDir a = 0)
     (hup : (b.n.get a : K) ≤ (ph.pos.get a - b.anchor.get a) * b.inv.get a) :
-    (interact b cells ph inDir).visits = [] ∧
-    (interact b cells ph inDir).last = initSt b ph inDir ∧
-    (interact b cells ph inDir).outDir ≠ 0 ∧
-    pinKind (interact b cells ph inDir).outDir.toNat a = 2 := by
+    startIdxAxisOld b inDir (pinPos b inDir (relPos b ph.pos)) a = (b.n.get a : Int) ∧
+    startIdxAxis b inDir (pinPos b inDir (relPos b ph.pos)) a = (b.n.get a : Int) - 1 := by
   have ht := tables_entry_ax inDir hd a
   have hpk : pinKind inDir a = 0 := by rw [← ht.1]; exact hk
-  -- the start index on axis `a` is `n`
-  have hidx : (initSt b ph inDir).idx.get a = (b.n.get a : Int) := by
-    show (startIdx b inDir _).get a = _
-    unfold startIdx; rw [V3.get_of]; unfold startIdxAxis; rw [hk]
-    have hrel : (pinPos b inDir (relPos b ph.pos)).get a = ph.pos.get a - b.anchor.get a := by
-      simp only [pinPos, V3.get_of, pinAxis, hpk, relPos]
-    simp only [hrel]
-    rw [floorUpTo_top _ _ hup]
-  have hnot : ¬ InRange b.n (initSt b ph inDir).idx := fun hr => by
-    have := (hr a).2; omega
-  have hlast : (interact b cells ph inDir).last = initSt b ph inDir := by
-    rw [last_eq]
-    unfold fuel march
-    have : ¬ ((decide ((initSt b ph inDir).tauDone < ph.tau) && inside b.n (initSt b ph inDir).idx) = true) := by
-      simp only [Bool.and_eq_true, decide_eq_true_eq, inside_iff]; exact fun h => hnot h.2
-    rw [if_neg this]
-  have hvis : (interact b cells ph inDir).visits = [] := by
-    rw [visits_eq, hlast]; rfl
-  have htau : ¬ ph.tau ≤ (interact b cells ph inDir).last.tauDone := by
-    rw [hlast]; show ¬ ph.tau ≤ (0.0 : K); rw [lit0]; exact not_le.mpr hv.tau_pos
-  have hdir : (interact b cells ph inDir).outDir = outputDirection b.n (initSt b ph inDir).idx := by
-    show (if ph.tau ≤ (interact b cells ph inDir).last.tauDone then _ else _) = _
-    rw [if_neg htau]
-    show outputDirection b.n (interact b cells ph inDir).last.idx = _
-    rw [hlast]
-  -- every start index is ≥ -1
-  have hge : ∀ a', -1 ≤ (initSt b ph inDir).idx.get a' := fun a' => by
-    show -1 ≤ (startIdx b inDir _).get a'
-    unfold startIdx; rw [V3.get_of]; unfold startIdxAxis
-    have := hv.n_pos a'
-    split <;> omega
-  have hz : zone (b.n.get a) ((initSt b ph inDir).idx.get a) = 2 := by
-    rw [hidx]; unfold zone
-    have := hv.n_pos a
-    rw [if_neg (by omega), if_pos (le_refl _)]
-  have hne : ¬ ((zone b.n.x (initSt b ph inDir).idx.x : Nat) = 0 ∧ (zone b.n.y (initSt b ph inDir).idx.y) = 0
-      ∧ (zone b.n.z (initSt b ph inDir).idx.z) = 0) := by
-    intro ⟨h1, h2, h3⟩
-    cases a <;> simp only [V3.get] at hz <;> omega
-  have htab := tables_exit ⟨_, zone_lt b.n.x (initSt b ph inDir).idx.x⟩
-    ⟨_, zone_lt b.n.y (initSt b ph inDir).idx.y⟩ ⟨_, zone_lt b.n.z (initSt b ph inDir).idx.z⟩ hne
-  rw [hdir]
-  unfold outputDirection
-  rw [exitMask_eq b.n _ hv.n_pos hge]
-  have h1 : 1 ≤ maskDir (maskOfZones (zone b.n.x (initSt b ph inDir).idx.x)
-      (zone b.n.y (initSt b ph inDir).idx.y) (zone b.n.z (initSt b ph inDir).idx.z)) := htab.1
-  refine ⟨hvis, hlast, by omega, ?_⟩
-  cases a
-  · rw [htab.2.2.1]; exact hz
-  · rw [htab.2.2.2.1]; exact hz
-  · rw [htab.2.2.2.2]; exact hz
+  have hrel : (pinPos b inDir (relPos b ph.pos)).get a = ph.pos.get a - b.anchor.get a := by
+    simp only [pinPos, V3.get_of, pinAxis, hpk, relPos]
+  constructor
+  · unfold startIdxAxisOld; rw [hk]; simp only [hrel]; rw [floorUpTo_top _ _ hup]
+  · unfold startIdxAxis; rw [hk]; simp only [hrel]; rw [floorUpTo_top _ _ hup]
+    unfold clampIdx; rw [if_pos (by omega)]
 
 end main
 /-! ### non-vacuity: the hypotheses are satisfiable and both outcomes occur -/
@@ -455,7 +410,7 @@ theorem exHyp (tau : ℚ) (ht : 0 < tau) : Hyp exBlock exCells (exPhoton tau) 0 
     cases a <;> simp [exPhoton, V3.get] at ha ⊢
     unfold dblMax; norm_num
   · unfold kappa exCells exPhoton; norm_num
-  · show 0 ≤ (exPhoton tau).pos.get a - exBlock.anchor.get a ∧ _ < top exBlock a
+  · show 0 ≤ (exPhoton tau).pos.get a - exBlock.anchor.get a ∧ _ ≤ top exBlock a
     rw [show top exBlock a = (⟨2, 1, 1⟩ : V3 ℚ).get a from h3 a]
     cases a <;> simp [exPhoton, exBlock, mkBlock, V3.get] <;> norm_num
 
@@ -480,12 +435,41 @@ example : Hyp exBlock exCells (exPhoton 10) 0 ∧ (interact exBlock exCells (exP
     (exPhoton 10).dir.x ^ 2 + (exPhoton 10).dir.y ^ 2 + (exPhoton 10).dir.z ^ 2 = 1 :=
   ⟨exHyp 10 (by norm_num), by rw [example_leaves.1]; decide, by norm_num [exPhoton]⟩
 
-/-- non-vacuity of `upper_boundary_start_exits_at_once`: a packet that starts on the upper x
-boundary of the block and travels INTO it (direction −x) is returned through the upper x face
-(classification 21 = FACE_X_P) without a single visit -/
-theorem example_upper_boundary :
-    (interact exBlock exCells { exPhoton 1 with pos := ⟨2, 1 / 2, 1 / 2⟩, dir := ⟨-1, 0, 0⟩ } 0).outDir = 21 ∧
-    (interact exBlock exCells { exPhoton 1 with pos := ⟨2, 1 / 2, 1 / 2⟩, dir := ⟨-1, 0, 0⟩ } 0).visits.length = 0 := by
+/-- a packet ON the upper x boundary of the block (entry INSIDE) -/
+def exPhotonUpper (dx : ℚ) : Photon ℚ := { exPhoton 1 with pos := ⟨2, 1 / 2, 1 / 2⟩, dir := ⟨dx, 0, 0⟩ }
+
+/-- the hypotheses hold for a start on the upper block boundary (closed block) -/
+theorem exHypUpper (dx : ℚ) (hdx : dx = 1 ∨ dx = -1) : Hyp exBlock exCells (exPhotonUpper dx) 0 := by
+  have hs : ∀ a, (0 : ℚ) < (⟨2, 1, 1⟩ : V3 ℚ).get a := fun a => by cases a <;> norm_num [V3.get]
+  have hn : ∀ a, 0 < (⟨2, 1, 1⟩ : V3 Nat).get a := fun a => by cases a <;> norm_num [V3.get]
+  obtain ⟨h1, h2, h3⟩ := mkBlock_ok (⟨0, 0, 0⟩ : V3 ℚ) ⟨2, 1, 1⟩ ⟨2, 1, 1⟩ hs hn
+  have hcs : ∀ a, exBlock.cs.get a = 1 := fun a => by
+    cases a <;> simp [exBlock, mkBlock, V3.of, V3.get, ofNat, lit0, lit1] <;> norm_num
+  have hdx0 : dx ≠ 0 := by rcases hdx with h | h <;> rw [h] <;> norm_num
+  have habs : |dx| = 1 := by rcases hdx with h | h <;> rw [h] <;> norm_num
+  refine ⟨⟨h1, hn, ⟨.x, by simpa [exPhotonUpper, V3.get] using hdx0⟩, fun a ha => ?_, fun c => ?_, by norm_num [exPhotonUpper, exPhoton]⟩,
+    ⟨by norm_num, h2, fun a _ => ?_⟩⟩
+  · rw [hcs a]
+    cases a <;> simp [exPhotonUpper, V3.get] at ha ⊢
+    rw [habs]; unfold dblMax; norm_num
+  · unfold kappa exCells exPhotonUpper exPhoton; norm_num
+  · show 0 ≤ (exPhotonUpper dx).pos.get a - exBlock.anchor.get a ∧ _ ≤ top exBlock a
+    rw [show top exBlock a = (⟨2, 1, 1⟩ : V3 ℚ).get a from h3 a]
+    cases a <;> simp [exPhotonUpper, exBlock, mkBlock, V3.get] <;> norm_num
+
+/-- on the upper x boundary and travelling INTO the block: the packet now traverses the last
+cell (here it is absorbed after a path of 1 in cell 1) -/
+theorem example_upper_boundary_inward :
+    (interact exBlock exCells (exPhotonUpper (-1)) 0).outDir = 0 ∧
+    ((interact exBlock exCells (exPhotonUpper (-1)) 0).visits.map (fun v => (v.cell, v.path))) = [(1, 1)] := by
+  decide +kernel
+
+/-- on the upper x boundary and travelling OUT of the block: it leaves at once through that face
+(21 = FACE_X_P) with zero path and its optical depth untouched -/
+theorem example_upper_boundary_outward :
+    (interact exBlock exCells (exPhotonUpper 1) 0).outDir = 21 ∧
+    ((interact exBlock exCells (exPhotonUpper 1) 0).visits.map (fun v => (v.cell, v.path))) = [(1, 0)] ∧
+    (interact exBlock exCells (exPhotonUpper 1) 0).tauLeft = 1 := by
   decide +kernel
 
 end CMacVerif.RayMarch
